@@ -219,8 +219,12 @@ def check(index, ctx):
                         "selection is not topk(scores, k=n_selected, largest=False): " + "; ".join(f"k={e.get('k_poly')} largest={e.get('largest')}" for e in t2), t2[0]["loc"] if t2 else red[0]["loc"])
             oh = [e for e in ops if e["sop"] == "one_hot" and t2 and t2[0]["id"] in e["in_origin"]]
             ok3 = len(oh) == 1 and oh[0].get("classes_poly") == m and oh[0].get("in_idx_of") == "R"
-            ctx.require(ok3, "K", "Krum: weights are indicator vectors of the selected rows", "one_hot(selected indices, m)",
-                        "selected indices are not turned into one-hot vectors over the m rows", oh[0]["loc"] if oh else cls.loc())
+            # alternative spelling: zeros(m); w[selected] = 1
+            sc = [e for e in ops if e["sop"] == "index_put" and t2 and t2[0]["id"] in e["in_origin"]]
+            ok3b = (not oh and len(sc) == 1 and sc[0].get("base_poly") == Poly.const(0) and sc[0].get("base_axes") == ["R"] and sc[0].get("value_poly") == ONE
+                    and sc[0].get("in_idx_of") == "R" and not sc[0].get("aug"))
+            ctx.require(ok3 or ok3b, "K", "Krum: weights are indicator vectors of the selected rows", "one_hot(selected indices, m) / zeros(m) with ones stored at the selected indices",
+                        "selected indices are not turned into indicator vectors over the m rows", (oh or sc)[0]["loc"] if (oh or sc) else cls.loc())
             # weights = sum of one-hots / n_selected
             wt = [e for e in r.events if e["kind"] == "op" and e["function"].endswith("_KrumWeighting.forward") and e["op"] in ("div", "mul")]
             okw = len(wt) == 1 and wt[0]["op"] == "div" and "=n_selected" in wt[0]["right"]
